@@ -208,7 +208,7 @@ class ConformanceExecutor(Executor):
             if os.path.islink(full):
                 os.unlink(full)
             else:
-                shutil.rmtree(full)
+                shutil.rmtree(full)      # (ln/ holds a symlink; rmtree removes the link, not its target)
         # mirror the world's layout: <base>[/.ws]/{root,outside} and the <base>/link symlink
         rel_top = os.path.relpath(w.top, w.base)
         ttop = twin if rel_top == "." else os.path.join(twin, rel_top)
@@ -217,6 +217,8 @@ class ConformanceExecutor(Executor):
         shutil.copytree(w.root, os.path.join(ttop, "root"), symlinks=True)
         os.mkdir(os.path.join(ttop, "outside"))
         os.symlink(os.path.join(ttop, "root"), os.path.join(twin, "link"))
+        os.mkdir(os.path.join(twin, "ln"))
+        os.symlink(os.path.join(ttop, "outside"), os.path.join(twin, "ln", "link3"))
         self.ttop = ttop
         return twin
 
